@@ -391,6 +391,11 @@ func (c *Conn) prepareHandshakeStart(ctx context.Context) (handshakeStart, error
 	if c.handshakeConfig.MaxVersion == protocol.Version1_2 {
 		return c.prepareHandshakeStart12(), nil
 	}
+	if c.handshakeConfig.ResumeState != nil && c.handshakeConfig.MinVersion != protocol.Version1_3 {
+		// Serialized state is always a DTLS 1.2 session: resume it instead of
+		// starting version negotiation when DTLS 1.3 is enabled as well.
+		return c.prepareHandshakeStart12(), nil
+	}
 	if c.handshakeConfig.MinVersion == protocol.Version1_3 {
 		return c.prepareHandshakeStart13(), nil
 	}
